@@ -141,6 +141,7 @@ type server struct {
 	cur     *Dg // handler answer for the datagram under test
 	lastAns *Obs
 	proc    *radius.CoAProcessor
+	timeouts int
 	effects int // terminator / policy-updater invocations (proc mode)
 }
 
@@ -269,17 +270,17 @@ func (s *server) deliver(d *Dg, secret []byte, k int) (Obs, []byte, Obs) {
 		panic(err)
 	}
 	var o, so Obs
-	deadline := time.After(8 * time.Second)
+	if s.timeouts >= 3 { // the listener stopped answering: do not wait 3 s for every remaining datagram
+		return Obs{}, syn, Obs{}
+	}
+	deadline := time.After(3 * time.Second)
 wait:
 	for {
 		select {
 		case r := <-s.respCh:
-			isSync := false
-			if len(r) >= 20 && r[1] == sid {
-				x := md5.Sum(respKey(syn, r, secret))
-				isSync = bytes.Equal(x[:], r[4:20])
-			}
-			if isSync {
+			// the sync request's identifier differs from the datagram's; whether the sync response is
+			// well-formed is judged later (emit), not here
+			if len(r) >= 2 && r[1] == sid {
 				so.Resps = append(so.Resps, r)
 				break wait
 			}
@@ -288,6 +289,7 @@ wait:
 			o.Panic = true
 			s.srv.VerifRestartLoop(s.ctx, s.panicCh)
 		case <-deadline:
+			s.timeouts++
 			break wait
 		}
 	}
@@ -475,8 +477,14 @@ func emit(c Case, steps []step, st *stats) vh.Case {
 			}
 		}
 		// the sync requests are ordinary steps of the trace; to keep the Coq files small they are
-		// written out only for the md5-flagged cases, or when a sync request did not get exactly one response
-		if s.Syn && !c.Md5 && !s.O.Panic && len(s.O.Resps) == 1 {
+		// written out only for the md5-flagged cases, or when a sync request did not get exactly one
+		// response with a valid Response Authenticator
+		syncFine := s.Syn && !s.O.Panic && len(s.O.Resps) == 1 && len(s.O.Resps[0]) >= 20
+		if syncFine {
+			x := md5.Sum(respKey(dg, s.O.Resps[0], c.Secret))
+			syncFine = bytes.Equal(x[:], s.O.Resps[0][4:20])
+		}
+		if syncFine && !c.Md5 {
 			st.syncOK++
 			continue
 		}
